@@ -4,7 +4,7 @@ replay driver."""
 import re
 from mirsym import smt as z3
 from mirsym.core import *
-from mirsym import summ_core, summ_fs, summ_serde
+from mirsym import summ_core, summ_fs, summ_serde, summ_coll
 from mirsym.summ_core import Ok, Err, Some, NONE, VecV, sval
 from mirsym.summ_fs import World, Node, ABSENT, FILE, DIR, LINK, IoError
 from mirsym.summ_serde import TVal, TomlText
@@ -105,6 +105,7 @@ def install_all(P):
     summ_core.install(P)
     summ_fs.install(P)
     summ_serde.install(P)
+    summ_coll.install(P)
     # defaulted generic parameters / aliases from source (LayerContentMetadata<M = GenericMetadata>, ...)
     for (st, prm), d in getattr(P, "type_defaults_src", {}).items():
         d2 = P.type_aliases.get(d, d)
